@@ -873,6 +873,34 @@ func (mc *machine) apply(step int, op Op) error {
 				sort.Strings(parts)
 				return strings.Join(parts, " ")
 			}))
+		case "mrangestop":
+			// Range stops as soon as f returns false: exactly min(I+1, Len) calls
+			return mc.judge(what, tri(func(s int) string {
+				n := 0
+				h.x[s].Range(func(protoreflect.MapKey, protoreflect.Value) bool { n++; return n <= op.I })
+				return fmt.Sprint(n)
+			}))
+		case "mrangeclear":
+			// mutation of the CURRENT key during Range is allowed: clear the keys a
+			// key-derived predicate selects; every entry is still visited exactly once
+			if !h.mutable {
+				return nil
+			}
+			mc.invalidateDerived(op.H, func(*handle) bool { return true })
+			mc.mutated = true
+			return mc.judge(what, tri(func(s int) string {
+				var parts []string
+				h.x[s].Range(func(k protoreflect.MapKey, v protoreflect.Value) bool {
+					ks := model.CanonValue(fd.MapKey(), k.Value())
+					parts = append(parts, ks)
+					if digest(ks, fmt.Sprint(op.I))%2 == 0 {
+						h.x[s].Clear(k)
+					}
+					return true
+				})
+				sort.Strings(parts)
+				return strings.Join(parts, " ") + fmt.Sprint(" left=", h.x[s].Len())
+			}))
 		case "newvalue":
 			return mc.judge(what, tri(func(s int) string { return elemStr(fd.MapValue(), h.x[s].NewValue(), viewOf(s)) }))
 		}
@@ -1065,15 +1093,17 @@ func (mc *machine) drawOp(rt *rapid.T) Op {
 		}
 	case 'x':
 		fd := h.fd
-		choices := []string{"len", "mhas", "mget", "mget", "mrange", "newvalue"}
+		choices := []string{"len", "mhas", "mget", "mget", "mrange", "mrangestop", "newvalue"}
 		if h.mutable {
-			choices = append(choices, "mset", "mset", "mset", "mclear", "mclear")
+			choices = append(choices, "mset", "mset", "mset", "mclear", "mclear", "mrangeclear")
 			if fd.MapValue().Message() != nil {
 				choices = append(choices, "mmutable", "mmutable")
 			}
 		}
 		op.Op = rapid.SampledFrom(choices).Draw(rt, "op")
 		switch op.Op {
+		case "mrangestop", "mrangeclear":
+			op.I = rapid.IntRange(0, 3).Draw(rt, "n")
 		case "mhas", "mget", "mset", "mclear", "mmutable":
 			op.K = mc.drawKey(rt, h)
 		}
